@@ -302,6 +302,20 @@ pub fn tool(cmd: &str, args: &[String]) -> i32 {
                 None => { println!("NO-WITNESS (sampler_z at 14 extreme centres x 3 widths x 2 sigma_min; 40000 random (mu, sigma') against Algorithm 15 on the same bytes)"); 0 }
             }
         }
+        "batchinv-case" => {
+            let v: Vec<i64> = args.get(0).map(|s| s.as_str()).unwrap_or("").split(';').filter(|s| !s.is_empty()).map(|s| s.parse().unwrap()).collect();
+            match crate::falcon::verif::batchinv_case(&v) {
+                Ok(()) => { println!("batch inversion is exact on this vector"); 0 }
+                Err(why) => { println!("REPRODUCED {}", why); 1 }
+            }
+        }
+        "search-batchinv" => {
+            let seed: u64 = args.get(0).and_then(|s| s.parse().ok()).unwrap_or(0);
+            match crate::falcon::verif::search_batchinv(seed) {
+                Some(d) => { println!("WITNESS {}", d); 1 }
+                None => { println!("NO-WITNESS (70 vectors of residues with and without zeros, lengths 0..70)"); 0 }
+            }
+        }
         "ntt-case" => {
             let pa: Vec<i64> = args[0].split(';').filter(|s| !s.is_empty()).map(|s| s.parse().unwrap()).collect();
             let pb: Vec<i64> = args[1].split(';').filter(|s| !s.is_empty()).map(|s| s.parse().unwrap()).collect();
